@@ -7,6 +7,8 @@ def run(R):
     if not R.build():
         return
     R.lean(["C05"])
+    import hunted
+    hunted.run(R, "C05")
     quick = R.tier == "quick"
     rng = R.rng
     reqs, meta = [], {}
@@ -56,6 +58,19 @@ def run(R):
             meta2.append((A, B, ch, prod, ctx, text, "direct"))
             k = f"{prod}/" + "+".join(sorted(set(ch.values())))
             dist[k] = dist.get(k, 0) + 1
+        # git renames whose old and new names both exist in tree B: two files swapped, files moved along a chain (with and without edits)
+        import emit
+        la = [(b"file a line %d" % i, "L") for i in range(6)]; lb = [(b"file b line %d" % i, "L") for i in range(6)]
+        la2 = la[:2] + [(b"a edited", "L")] + la[3:]
+        ren = lambda x, y, o, n: emit.git_text(gen.make_hunks(x, y, 3) if x != y else [], o, n, "rename", similarity=100 if x == y else 80)
+        fixed = [("swap", {b"a": (la, 0o644), b"b": (lb, 0o644)}, {b"a": (lb, 0o644), b"b": (la, 0o644)}, ren(la, la, b"a", b"b") + ren(lb, lb, b"b", b"a")),
+                 ("swap+edit", {b"a": (la, 0o644), b"b": (lb, 0o644)}, {b"a": (lb, 0o644), b"b": (la2, 0o644)}, ren(la, la2, b"a", b"b") + ren(lb, lb, b"b", b"a")),
+                 ("chain", {b"a": (la, 0o644), b"b": (lb, 0o644)}, {b"b": (la, 0o644), b"c": (lb, 0o644)}, ren(la, la, b"a", b"b") + ren(lb, lb, b"b", b"c")),
+                 ("chain+edit", {b"a": (la, 0o644), b"b": (lb, 0o644)}, {b"b": (la2, 0o644), b"c": (lb, 0o644)}, ren(la, la2, b"a", b"b") + ren(lb, lb, b"b", b"c")),
+                 ("rename", {b"a": (la, 0o755)}, {b"d/e": (la2, 0o755)}, ren(la, la2, b"a", b"d/e"))]
+        for name, A, B, text in fixed:
+            jobs.append(dict(cut=R.cut, tree=drv.tree_with_patch(B, text), argv=[b"-R", b"-p1", b"-i", drv.PATCHNAME]))
+            meta2.append((A, B, {}, "git", 3, text, name)); dist["git/" + name] = 1
     finally:
         P.close()
     res = drv.run_many(jobs)
@@ -79,6 +94,6 @@ def run(R):
 
 
 RULE = ("apply_patch -R on B with diffs of A to B by the independent emitter (all options, all newline modes); reverse(hunk) on the same hunks; driver: "
-        "tree B + diff(A,B) by GNU diff / git / emitter with create, delete, rename sections applied with -R must give tree A, exit 0, no question. "
+        "tree B + diff(A,B) by GNU diff / git / emitter with create, delete, rename (also two files swapped and files moved along a chain), empty-file and mode sections applied with -R must give tree A (modes included), exit 0, no question. "
         "All cases are non-trivial (A != B).")
 ASSUME = ["known finding D2 and its mirror image under -R excluded: zero-context insertion stated at line 0 of a non-empty file"]
